@@ -172,9 +172,49 @@ def judge(run, spec, r):
     return sigs
 
 
+def quota_gate(run):
+    """C04 translator: regenerate the quota formulas and quota tests from the rule modules under common.REPO
+    (harness/gen_quota.py) and have the Lean kernel check that each is the program lean/Props/C04Prog.lean proves equal to the
+    model's quota / quota test.  Returns the list of broken obligations."""
+    import gen_quota, subprocess, re
+    cov = run.coverage
+    try:
+        progs = gen_quota.programs(common.REPO)
+    except gen_quota.TranslationError as e:
+        cov['translator_quota'] = dict(status='refused', why=str(e))
+        return ['translator harness/gen_quota.py refused the source: %s' % e]
+    except Exception as e:
+        cov['translator_quota'] = dict(status='error', why='%s: %s' % (type(e).__name__, e))
+        return ['translator harness/gen_quota.py failed: %s: %s' % (type(e).__name__, e)]
+    gdir = os.path.join(common.LEAN, '.lake', 'gen')
+    os.makedirs(gdir, exist_ok=True)
+    path = os.path.join(gdir, 'Quota_%d.lean' % os.getpid())
+    open(path, 'w').write(gen_quota.lean_file(progs))
+    try:
+        r = subprocess.run(['lake', 'env', 'lean', path], cwd=common.LEAN, capture_output=True, text=True, timeout=600)
+        out = r.stdout + r.stderr
+    finally:
+        try: os.remove(path)
+        except OSError: pass
+    ok = r.returncode == 0 and 'error' not in out.lower()
+    axioms_ok = all(set(a.strip() for a in m.split(',') if a.strip()) <= common.STD_AXIOMS
+                    for m in re.findall(r"depends on axioms: \[([^\]]*)\]", out, flags=re.S))
+    cov['translator_quota'] = dict(status='checked' if ok and axioms_ok else 'mismatch', programs=sorted(progs),
+                                   obligation='Gen.<rule>Quota = C04.<rule>QuotaProg, Gen.<rule>HasQuota = C04.hasQuota{X,GE}Prog by rfl; '
+                                              '*_quota_is_program, hasQuota*_is_program (lean/Props/C04Prog.lean) tie the programs to the model',
+                                   source=['droop/rules/%s.py' % m for m in gen_quota.RULES + ['meek_prf']])
+    if ok and axioms_ok:
+        return []
+    bad = sorted(set(re.findall(r"theorem (\w+)_is_committed", ' '.join(l for l in out.split('\n')))) or [])
+    return ['calcQuota() / hasQuota() of droop/rules/*.py, translated, is no longer the program lean/Props/C04Prog.lean proves the model equal to: '
+            + ' '.join(l for l in out.split('\n') if 'error' in l.lower())[:400]]
+
+
 def count_property(run, spec):
     t0 = time.time()
     broken = lean_gate(run, THEOREMS.get(run.prop, []))
+    if not broken and spec.get('extra_gate'):
+        broken = broken + spec['extra_gate'](run)
     rng = rng_for(run)
     n = budget(run, spec.get('quick', 4000), spec.get('thorough', 120000))
     rules = spec['rules']
@@ -387,7 +427,7 @@ def C03(run):
 
 @prop('C04')
 def C04(run):
-    count_property(run, dict(rules=ALL, keys=['C04q', 'C04c', 'EXC'], proj=proj_C04, quick=5000, thorough=150000,
+    count_property(run, dict(rules=ALL, keys=['C04q', 'C04c', 'EXC'], proj=proj_C04, quick=5000, thorough=150000, extra_gate=quota_gate,
                              families=['plain', 'on_quota', 'symmetric', 'chains', 'sure_losers', 'few_supported', 'exact_threshold',
                                        'exact_threshold']))
 
